@@ -93,7 +93,7 @@ Proof.
     cbn [trigger_lenient] in L. apply one_of_false in L.
     change (documented KLogLevel (JStr s)) with (one_of s ["INFO"; "WARN"; "ERROR"]%string). rewrite one_of_In.
     assert (A : accepts KLogLevel (JStr s) = true <-> In s (List.map fst log_levels)).
-    { rewrite <- assocT_In. unfold accepts, decode, check_level. cbn [is_null bind].
+    { rewrite <- assocT_In. unfold accepts, decode, check_level. cbn [dec_str_or_null is_null bind].
       destruct (assocT s log_levels); cbn; split; eauto; try discriminate. intros (? & ?); discriminate. }
     rewrite A. clear A. revert L.
     set (L8 := List.map fst log_levels). vm_compute in L8. subst L8.
